@@ -132,6 +132,10 @@ def jws_table(prog):
 
 def check(ctx):
     prog = ctx.prog
+    from .http_common import keyed_endpoint_update_rule, new_nonce_source_rule
+    N1 = ctx.rule("N1", "nonces come from the directory's newNonce resource; an account's per-endpoint records are updated for the named endpoint only")
+    new_nonce_source_rule(ctx, N1)
+    keyed_endpoint_update_rule(ctx, N1)
     # the `kid` of a request is the account URL as it survives a restart, and a key roll-over records the new key's fingerprint (else the
     # next request is signed with / rolled over from the wrong key): C11's persistence and bookkeeping rules
     from . import c11 as _c11
